@@ -55,8 +55,9 @@ func blockName(b interfaces.Block) string {
 // ---------------------------------------------------------------- SPI fakes
 
 type sendRec struct {
-	to  []primitives.MemberId
-	raw *interfaces.ConsensusRawMessage
+	to     []primitives.MemberId
+	raw    *interfaces.ConsensusRawMessage
+	failed bool // the transport returned an error: nothing was delivered
 }
 
 type storeRec struct {
@@ -124,6 +125,15 @@ type cnode struct {
 
 // --- Communication
 func (n *cnode) SendConsensusMessage(ctx context.Context, recipients []primitives.MemberId, message *interfaces.ConsensusRawMessage) error {
+	// in some runs the transport fails now and then: the node has done its part (the message is in the trace as sent), the
+	// transport reports an error and delivers nothing; the node's state must not depend on it
+	if n.cl.sendFailEvery > 0 && !n.isReplica {
+		n.cl.sendSeq++
+		if n.cl.sendSeq%n.cl.sendFailEvery == 0 {
+			n.sends = append(n.sends, sendRec{to: recipients, raw: message, failed: true})
+			return errors.New("transport error")
+		}
+	}
 	n.sends = append(n.sends, sendRec{to: recipients, raw: message})
 	return nil
 }
@@ -298,6 +308,11 @@ type cluster struct {
 	bodies    map[string]bool
 	bodiesMu  sync.Mutex
 	byHash    map[string]string
+	sendFailEvery, sendSeq int // every k-th send of a correct node fails (0: never)
+	// membership change: from height exclFrom on (0: never) member exclIdx is no longer in the committee; its place (and weight)
+	// is taken by the identity after the adversary's outsider, a member nobody plays (silent)
+	exclIdx  int
+	exclFrom uint64
 	lenient   bool // consumer validators accept a proposal without a block
 	genesisOk bool
 }
@@ -359,7 +374,11 @@ func (cl *cluster) committeeAt(h uint64) []interfaces.CommitteeMember {
 	}
 	for i := 0; i < cl.nMembers; i++ {
 		j := (i + shift) % cl.nMembers
-		out[i] = interfaces.CommitteeMember{Id: cl.ids[j], Weight: primitives.MemberWeight(cl.weights[j])}
+		id := cl.ids[j]
+		if cl.exclFrom > 0 && h >= cl.exclFrom && j == cl.exclIdx && len(cl.ids) > cl.nMembers+1 {
+			id = cl.ids[cl.nMembers+1]
+		}
+		out[i] = interfaces.CommitteeMember{Id: id, Weight: primitives.MemberWeight(cl.weights[j])}
 	}
 	return out
 }
@@ -373,10 +392,20 @@ func (cl *cluster) committeeNames(h uint64) []string {
 	return out
 }
 
+// clusterIdShape: what the member ids of the next cluster look like (ids are opaque byte strings of any length)
+var clusterIdShape int
+
 func newCluster(weights []uint64, byz []int, outsiders int, rotate bool) *cluster {
 	cl := &cluster{nMembers: len(weights), weights: weights, byz: map[int]bool{}, rotate: rotate, bodies: map[string]bool{}}
 	for i := 0; i < len(weights)+outsiders; i++ {
-		cl.ids = append(cl.ids, primitives.MemberId(fmt.Sprintf("id-%02d-%s", i, strings.Repeat("k", 4))))
+		switch clusterIdShape {
+		case 1: // long ids that differ only after a common 26-byte prefix
+			cl.ids = append(cl.ids, primitives.MemberId(fmt.Sprintf("lean-helix-validator-node-%04d", i)))
+		case 2: // ids that differ only by trailing zero bytes
+			cl.ids = append(cl.ids, primitives.MemberId(append([]byte("zero-padded-id"), make([]byte, i)...)))
+		default:
+			cl.ids = append(cl.ids, primitives.MemberId(fmt.Sprintf("id-%02d-%s", i, strings.Repeat("k", 4))))
+		}
 	}
 	cl.ring = newKeyring(cl.ids)
 	for _, b := range byz {
